@@ -77,6 +77,11 @@ func MergeSearchResults(lim uint16, firstAttr string, cmpInt bool, sets [][]clie
 					default:
 						cmpAttr = strings.Compare(sets[i][0].Attributes[0], sets[minInd][0].Attributes[0])
 					case object.FilterParentID, object.FilterFirstSplitObject, object.AttributeAssociatedObject:
+						if sets[i][0].Attributes[0] == "" || sets[minInd][0].Attributes[0] == "" {
+							// missing attribute (NOT_PRESENT filter)
+							cmpAttr = strings.Compare(sets[i][0].Attributes[0], sets[minInd][0].Attributes[0])
+							break
+						}
 						if err = curOID.DecodeString(sets[i][0].Attributes[0]); err == nil {
 							err = minOID.DecodeString(sets[minInd][0].Attributes[0])
 						}
